@@ -41,7 +41,10 @@ def check(ctx):
         fl = flow_of(f)
         cn = fl.node_of_expr(c)
         r_arg, d_arg, t_arg, amount = c.args
-        amt = ex.expand(amount, cn)
+        from sa.pat import attr_path
+        # the day / resource expressions are compared as written: keep their variables unexpanded inside the amount
+        stop = {p_ for p_ in (attr_path(d_arg), attr_path(r_arg)) if p_}
+        amt = ex.expand(amount, cn, stop=stop)
         margs = facts.flatten_lattice(amt, 'min')
         frees = []
         if margs is not None:
@@ -50,7 +53,15 @@ def check(ctx):
                 if fr:
                     frees.append(fr)
         if margs is None or not frees:
-            # recognised shapes without a capacity bound: a bare name / arithmetic on the remaining work
+            # recognised shapes without a capacity bound: a parameter / constant / arithmetic on them.  A term the expansion could
+            # not resolve (a local with several definitions, the result of a helper call) is not a recognised shape
+            opaque = [x for x in ast.walk(amt) if (isinstance(x, ast.Name) and isinstance(x.ctx, ast.Load) and x.id not in f.params
+                                                    and x.id not in ('min', 'max', 'abs', 'round', 'float', 'int') and len(fl.defs_of(x.id)) > 1)
+                      or (isinstance(x, ast.Call) and not (isinstance(x.func, ast.Name) and x.func.id in ('min', 'max', 'abs', 'round', 'float', 'int'))
+                          and not parse_cap(x) and not sched._resv_call(x))]
+            if opaque:
+                o.undecided(f, c, amount, f"reserved amount `{src(amt)[:80]}` contains `{src(opaque[0])[:40]}`, which the rule cannot resolve")
+                continue
             o.refute(f, c, amount, f"reserved amount `{src(amt)}` is not bounded by the free capacity "
                                    f"CAP(resource, day) - RESV(resource, day): expected min(remaining, free)")
             continue
@@ -66,16 +77,35 @@ def check(ctx):
         if resv['kind'] in ('task', 'sel-inverted'):
             bad.append(f"ledger sum uses selector `{resv['kind']}`: with balancing on, other tasks' bookings are ignored")
         elif resv['kind'] == 'sel-other':
-            o.undecided(f, c, amount, "ledger selector is a conditional the rule does not recognise")
-            continue
+            from .sched_fill import selector_shape, selector_defect
+            shape, extra, all_when_true = selector_shape(resv.get('as_ifexp', resv['node']), S['balance'])
+            if shape == 'narrowed':
+                bad.append(selector_defect(resv.get('as_ifexp', resv['node']), S['balance']))
+            elif shape == 'widened' and all_when_true:
+                pass        # all bookings are subtracted at least whenever balancing is on: the amount is bounded in both modes
+            else:
+                o.undecided(f, c, amount, "ledger selector is a conditional the rule does not recognise")
+                continue
         # same version of the day variable between the capacity read, the ledger read and the booking
-        dpath = facts.attr_path(d_arg) if hasattr(facts, 'attr_path') else None
-        from sa.pat import attr_path
         dpath = attr_path(d_arg)
         if dpath:
             for sub, what in ((cap['node'], 'capacity'), (resv['node'], 'ledger sum')):
-                origin = _origin_node(f, amount, sub, ex)
-                if origin is not None and not fl.same_version(dpath, origin, cn):
+                # a selector joined from an if/else statement has no textual origin of its own: look for its two queries
+                subs = [sub]
+                if isinstance(sub, ast.IfExp):
+                    subs += [sub.body, sub.orelse]
+                origins = []
+                for s_ in subs:
+                    origins += _origin_nodes(f, s_)
+                    if origins:
+                        break
+                origins = [n_ for n_ in origins if fl.cfg.can_reach(n_, cn)]
+                # evaluated inside the same loop iteration: prefer the origins in the innermost loop of the booking
+                lp_ = sched.while_loop_of(f, c)
+                entry_ = fl.cfg.loop_entry_branch(lp_) if lp_ is not None else None
+                avoid_ = {entry_.id} if entry_ is not None else None
+                if origins and not any(fl.same_version(dpath, n_, cn) or
+                                       (avoid_ and fl.cfg.can_reach(n_, cn) and fl.no_def_between(dpath, n_, cn, avoid_)) for n_ in origins):
                     bad.append(f"the day variable `{dpath}` is redefined between the {what} read and the booking")
         if bad:
             for b in bad:
@@ -84,16 +114,31 @@ def check(ctx):
             o.site(f, c, f"amount = {src(amt)[:90]}")
 
         # ---- positivity
-        conds = facts.node_conditions(prog, f, c, ctx.typer)
+        conds = []
+        for t_, pol_ in fl.cfg.conditions(cn):
+            conds += facts.split_conj(ex.expand(t_, fl.cfg.node_containing(t_), stop=stop), pol_)
         free_pos = None
         for t, pol in conds:
             pt = sched.sign_test(t, pol)
             if pt and parse_free(pt[0], S['balance']) and same(pt[0], fr['node']):
                 if free_pos is None or pt[1] == '>':
                     free_pos = pt[1]
-        if free_pos is None:
-            # is there a test on the same free term with a wrong comparator / polarity?
-            o2.refute(f, c, c, "the booking is not guarded by `free > 0` on the same free-capacity term")
+        amt_pos = None
+        for t, pol in conds:
+            pt = sched.sign_test(t, pol)
+            if pt and (same(pt[0], amt) or same(ex.expand(pt[0], cn), amt)):
+                amt_pos = pt[1] if amt_pos != '>' else amt_pos
+        if amt_pos == '>':
+            o2.site(f, c, f"guard: the booked amount itself is tested `> 0`")
+        elif free_pos is None:
+            # closed world: every dominating condition is either the loop guard or a sign test the rule understands
+            loop0 = sched.while_loop_of(f, c)
+            opaque = [(t, pol) for t, pol in conds if sched.sign_test(t, pol) is None and not (loop0 is not None and t is loop0.test)]
+            if opaque or amt_pos is not None:
+                o2.undecided(f, c, c, "no `free > 0` guard recognised among the conditions of the booking (" +
+                             ', '.join(facts.cond_texts(opaque))[:120] + ")")
+            else:
+                o2.refute(f, c, c, "the booking is not guarded by `free > 0` on the same free-capacity term")
         elif free_pos != '>':
             o2.refute(f, c, c, f"the booking is guarded by `free {free_pos} 0` instead of `free > 0`: zero/negative amounts can be booked")
         else:
@@ -103,10 +148,18 @@ def check(ctx):
                 if not parse_free(a, S['balance']):
                     rem = a
             lt = sched.sign_test(loop.test) if loop is not None else None
-            if loop is None or lt is None or lt[1] != '>' or rem is None or not same(lt[0], rem) or len(margs) != 2:
-                o2.refute(f, c, c, "the other operand of min(..) is not the remaining work tested `> 0` by the enclosing loop")
-            else:
+            others = [a for a in (margs or []) if not parse_free(a, S['balance'])]
+            if not others:
+                o2.site(f, c, f"guard: {src(fr['node'])[:60]} > 0, amount is the free capacity")
+            elif loop is None or lt is None or len(others) != 1:
+                o2.undecided(f, c, c, "cannot relate the other operand(s) of min(..) to a `remaining > 0` loop guard")
+            elif lt[1] in ('>=', '<', '<=') and (same(lt[0], rem) or same(ex.expand(lt[0], cn), rem)):
+                o2.refute(f, c, c, f"the remaining work is only known to be `{lt[1]} 0` inside the loop (`{src(loop.test)}`): a zero or "
+                                   f"negative amount can be booked")
+            elif lt[1] == '>' and (same(lt[0], rem) or same(ex.expand(lt[0], cn), rem)):
                 o2.site(f, c, f"guards: {src(fr['node'])[:60]} > 0 and {src(lt[0])} > 0")
+            else:
+                o2.undecided(f, c, c, "the other operand of min(..) is not the variable tested by the enclosing loop guard")
 
         # ---- row content
         ok = True
@@ -146,8 +199,11 @@ def check(ctx):
                                                   f"resources named by tasks are not registered")
                 continue
             task_p = f.params[1]
+            exf = Expander(prog, f, ctx.typer)
             for c, m in found:
-                if not (match(f"{task_p}.resource", m['k']) and same(m['k'], m['k2'])):
+                cn_ = cfg.node_containing(c)
+                k1, k2 = exf.expand(m['k'], cn_), exf.expand(m['k2'], cn_)
+                if not (match(f"{task_p}.resource", k1) and same(k1, k2)):
                     o.refute(f, c, c, "resource table is not keyed by the task's resource name / default resource gets another name")
                     continue
                 conds = facts.node_conditions(prog, f, c, ctx.typer, expand=False)
@@ -287,41 +343,43 @@ def check(ctx):
                             o.refute(calc, r, r.value.args[2], "the report is not built from the ledger handed to the scheduling pass")
                     else:
                         o.refute(calc, r, r.value.args[2], "usage report is not ResourceUsageReport(<ledger of this call>.rows)")
-        rf = prog.func('schedule.ResourceUsageReport.rows')
-        comps = [n for n in walk_no_nested(rf.node) if isinstance(n, ast.ListComp)]
-        if len(comps) == 1:
-            elt, tgt, it, ifs = facts.comp_parts(comps[0])
-            okf = len(ifs) <= 1 and (not ifs or match(f"$f is None or $f({tgt.id})", ifs[0]))
-            if match("self._ResourceUsageReport__rows", it) and okf and \
-                    (match(f"dataclasses.replace({tgt.id})", elt) or match(f"{tgt.id}", elt)):
-                o.site(rf, comps[0], src(comps[0]))
-            else:
-                o.refute(rf, comps[0], comps[0], "rows() does not return every stored row accepted by the caller's filter")
-        else:
-            o.undecided(rf, rf.node, 'rows', "rows() is not a single comprehension")
+        report_rows(ctx, o)
         sf = prog.func('schedule.ResourceUsageReport.reserved')
         ex = Expander(prog, sf, ctx.typer)
         rets = [n for n in walk_no_nested(sf.node) if isinstance(n, ast.Return)]
+        loops = [c_ for c_ in facts.collects(sf) if getattr(c_, 'kind', '') == 'loop' and isinstance(c_.target, ast.Name)]
         for r in rets:
             v = ex.expand(r.value)
-            m = match("sum($c, 0)", v) or match("sum($c)", v)
+            m = match("sum($c, 0)", v) or match("sum($c)", v) or match("math.fsum($c)", v) or match("fsum($c)", v)
             parts = facts.comp_parts(m['c']) if m else None
+            atoms = []
+            if not parts and isinstance(r.value, ast.Name):
+                # running total: `total = 0; for row in rows: if ..: total += row.units; return total`
+                flr = flow_of(sf)
+                accl = [c_ for c_ in loops if c_.acc == r.value.id]
+                inits = [d for d in flr.defs_of(r.value.id) if d.kind == 'assign']
+                augs = [d for d in flr.defs_of(r.value.id) if d.kind == 'aug']
+                if len(accl) == 1 and len(augs) == 1 and len(inits) == 1 and facts.const_num(inits[0].value) == 0:
+                    c_ = accl[0]
+                    parts = (c_.elt, c_.target, c_.iter, [])
+                    for t_, pol_ in c_.conds:
+                        atoms += facts.split_conj(t_, pol_)
             if not parts:
                 o.undecided(sf, r, r, "reserved() is not sum(<comprehension>)")
                 continue
             elt, tgt, it, ifs = parts
-            atoms = []
             for c in ifs:
                 atoms += facts.split_conj(c, True)
             want = {f"{tgt.id}.resource == {sf.params[1]}", f"{tgt.id}.date == {sf.params[2]}"}
             got = set()
             for a, pol in atoms:
+                a, pol = facts.norm_cond(a, pol)
                 t = src(a)
-                if isinstance(a, ast.Compare) and isinstance(a.ops[0], ast.Eq):
+                if isinstance(a, ast.Compare) and len(a.ops) == 1 and isinstance(a.ops[0], ast.Eq) and pol:
                     t2 = f"{src(a.comparators[0])} == {src(a.left)}"
                     got.add(t if t in want else t2)
                 else:
-                    got.add(t)
+                    got.add(('' if pol else 'not ') + t)
             if match(f"{tgt.id}.units", elt) and match("self._ResourceUsageReport__rows", it) and got == want:
                 o.site(sf, r, src(v)[:100])
             else:
@@ -350,6 +408,15 @@ def check(ctx):
                             o.refute(f, r, t, f"search accepts a day on `free {pt[1]} 0`")
                         elif fr['resv']['kind'] in ('task', 'sel-inverted'):
                             o.refute(f, r, t, "search ignores other tasks' bookings while balancing is on")
+                        elif fr['resv']['kind'] == 'sel-other':
+                            from .sched_fill import selector_shape, selector_defect
+                            shape, extra, all_when_true = selector_shape(fr['resv'].get('as_ifexp', fr['resv']['node']), S['balance'])
+                            if shape == 'narrowed':
+                                o.refute(f, r, fr['resv']['node'], "search: " + selector_defect(fr['resv'].get('as_ifexp', fr['resv']['node']), S['balance']))
+                            elif shape == 'widened' and all_when_true:
+                                o.site(f, r, src(t)[:100])
+                            else:
+                                o.undecided(f, r, t, "the search's ledger selector is a conditional the rule does not recognise")
                         elif not (src(fr['cap']['r']) == f.params[1] and src(fr['resv']['r']) == f.params[1]
                                   and src(fr['resv']['u']) == f.params[2] and same(fr['cap']['d'], fr['resv']['d'])):
                             o.refute(f, r, t, "search tests capacity and bookings of different resource/day/ledger")
@@ -360,6 +427,122 @@ def check(ctx):
     ctx.guarded(o, search)
 
 
+class _Unknown(Exception):
+    pass
+
+
+def _beval(e, A, B, fparam, tgt):
+    """truth value of a filter expression over the atoms A = `<fparam> is None`, B = `<fparam>(<tgt>)`.
+    Returns True/False, or 'crash' when the predicate would be called although it is None."""
+    if isinstance(e, ast.BoolOp):
+        is_and = isinstance(e.op, ast.And)
+        for v in e.values:
+            r = _beval(v, A, B, fparam, tgt)
+            if r == 'crash':
+                return r
+            if r is (not is_and):
+                return r
+        return is_and
+    if isinstance(e, ast.UnaryOp) and isinstance(e.op, ast.Not):
+        r = _beval(e.operand, A, B, fparam, tgt)
+        return r if r == 'crash' else (not r)
+    if isinstance(e, ast.IfExp):
+        t = _beval(e.test, A, B, fparam, tgt)
+        if t == 'crash':
+            return t
+        return _beval(e.body if t else e.orelse, A, B, fparam, tgt)
+    if isinstance(e, ast.Constant) and isinstance(e.value, bool):
+        return e.value
+    if match(f"{fparam} is None", e) or match(f"{fparam} == None", e):
+        return A
+    if match(f"{fparam} is not None", e) or match(f"{fparam} != None", e):
+        return not A
+    if isinstance(e, ast.Name) and e.id == fparam:          # truthiness of a callable-or-None
+        return not A
+    if match(f"callable({fparam})", e):
+        return not A
+    if tgt is not None and (match(f"{fparam}({tgt})", e) or match(f"bool({fparam}({tgt}))", e)):
+        return 'crash' if A else B
+    raise _Unknown(src(e))
+
+
+def report_rows(ctx, o):
+    """ResourceUsageReport.rows(filter): every stored row (or a copy of it) for which `filter is None or filter(row)`.
+    The comprehension may be spelled as an accumulation loop with guard clauses, or split over several returns."""
+    prog = ctx.prog
+    rf = prog.func('schedule.ResourceUsageReport.rows')
+    if len(rf.params) < 2:
+        o.undecided(rf, rf.node, 'rows', "rows() has no filter parameter")
+        return
+    fparam = rf.params[1]
+    ex = Expander(prog, rf, ctx.typer)
+    rets = [n for n in walk_no_nested(rf.node) if isinstance(n, ast.Return)]
+    if not rets:
+        o.undecided(rf, rf.node, 'rows', "rows() is not written with return statements over one collection of the stored rows")
+        return
+    parsed = []
+    for r in rets:
+        v = ex.expand(r.value) if r.value is not None else None
+        for _ in range(3):
+            m = v is not None and (match("list($x)", v) or match("[] + $x", v) or match("$x + []", v))
+            if m:
+                v = m['x']
+        if v is not None and match("self._ResourceUsageReport__rows", v):
+            # the stored list itself: every row, no filter
+            parsed.append((r, v, None, None, []))
+            continue
+        parts = facts.comp_parts(v) if v is not None else None
+        if not parts or not isinstance(v, (ast.ListComp, ast.GeneratorExp)) or not isinstance(parts[1], ast.Name):
+            o.undecided(rf, r, r, f"rows() returns `{src(v)[:80] if v is not None else 'None'}`: not a collection over the stored rows in a form the rule follows")
+            return
+        elt, tgt, it, ifs = parts
+        if not match("self._ResourceUsageReport__rows", it):
+            o.refute(rf, r, it, f"rows() ranges over `{src(it)[:60]}`, not over the stored rows")
+            return
+        if not (match(f"dataclasses.replace({tgt.id})", elt) or match(f"{tgt.id}", elt) or match(f"replace({tgt.id})", elt)
+                or match(f"copy.copy({tgt.id})", elt) or match(f"copy({tgt.id})", elt)):
+            o.refute(rf, r, elt, f"rows() returns `{src(elt)[:60]}` per row, not the row (or a copy of it)")
+            return
+        parsed.append((r, v, elt, tgt.id, list(ifs)))
+    # decision table over (filter is None, filter(row))
+    try:
+        for A, B in ((True, None), (False, True), (False, False)):
+            live = []
+            for r, v, elt, tgt, ifs in parsed:
+                conds = facts.node_conditions(prog, rf, r, ctx.typer)
+                ok = True
+                for t, pol in conds:
+                    val = _beval(t, A, B, fparam, None)
+                    if val == 'crash' or val != pol:
+                        ok = False
+                        break
+                if ok:
+                    live.append((r, v, tgt, ifs))
+            if len(live) != 1:
+                o.undecided(rf, rf.node, 'rows', f"{len(live)} return statements apply when the filter is {'None' if A else 'given'}")
+                return
+            r, v, tgt, ifs = live[0]
+            got = True
+            for c in ifs:
+                val = _beval(c, A, B, fparam, tgt)
+                if val == 'crash':
+                    got = 'crash'
+                    break
+                if not val:
+                    got = False
+                    break
+            want = True if A else B
+            if got != want:
+                o.refute(rf, r, r, "rows() does not return every stored row accepted by the caller's filter: with "
+                                   f"{'no filter' if A else 'a filter that ' + ('accepts' if B else 'rejects') + ' the row'} the row is "
+                                   f"{'kept' if got is True else 'dropped' if got is False else 'passed to a None predicate'}")
+                return
+    except _Unknown as e:
+        o.undecided(rf, rf.node, str(e), f"rows() filters by `{e}`, a condition the rule does not recognise")
+        return
+    o.site(rf, parsed[0][0], "rows() = stored rows accepted by `filter is None or filter(row)`: " + src(parsed[0][1])[:80])
+
+
 def ledger_shape(ctx, o):
     prog = ctx.prog
     rf = prog.func('schedule._ResourceUsage.reserve')
@@ -367,7 +550,8 @@ def ledger_shape(ctx, o):
     ex = Expander(prog, rf, ctx.typer)
     rows = [c for c in walk_no_nested(rf.node) if isinstance(c, ast.Call) and isinstance(c.func, ast.Name)
             and c.func.id == 'ResourceUsageRow']
-    appended = [c for c in facts.calls_named(rf, 'append')]
+    appended = [c for c in facts.calls_named(rf, 'append') if isinstance(c.func, ast.Attribute) and
+                (match("$s.rows", c.func.value) or not isinstance(c.func.value, ast.Name) or c.func.value.id not in rf.params)]
     app_arg = ex.expand(appended[0].args[0]) if len(appended) == 1 and appended[0].args else None
     if len(rows) != 1 or len(appended) != 1 or not (isinstance(app_arg, ast.Call) and getattr(app_arg.func, 'id', '') == 'ResourceUsageRow'):
         o.refute(rf, rf.node, 'reserve', "reserve() must append exactly one ResourceUsageRow to the ledger")
@@ -391,6 +575,46 @@ def ledger_shape(ctx, o):
     exq = Expander(prog, qf, ctx.typer)
     qp = qf.params
     sites = [c for c in facts.collects(qf) if match("$s.rows", c.iter) and isinstance(c.target, ast.Name)]
+    # every answer must be computed from the rows: a return that reads another structure (a running index / cache) is only
+    # equivalent when that structure is keyed by the ledger's day key; an index by a part of the date (day of year, day of
+    # month, weekday) merges different calendar days
+    accs = {c.acc for c in sites if getattr(c, 'acc', None)}
+    for r in [n for n in walk_no_nested(qf.node) if isinstance(n, ast.Return) and n.value is not None]:
+        v = exq.expand(r.value)
+        from_rows = any(isinstance(n, ast.Attribute) and n.attr == 'rows' for n in ast.walk(v)) or \
+            any(isinstance(n, ast.Name) and n.id in accs for n in ast.walk(v))
+        if from_rows:
+            continue
+        idx = []
+        for n in ast.walk(v):
+            if isinstance(n, ast.Subscript):
+                idx.append(n.slice)
+            elif isinstance(n, ast.Call) and isinstance(n.func, ast.Attribute) and n.func.attr in ('get', 'setdefault', 'pop') and n.args:
+                idx.append(n.args[0])
+        day_idx = [i for i in idx if any(isinstance(x, ast.Name) and x.id == qp[2] for x in ast.walk(i))]
+        names = set()
+        for i in day_idx:
+            names |= {x.attr for x in ast.walk(i) if isinstance(x, ast.Attribute)}
+            if facts.is_midnight_of(i) is not None:
+                names.add('year')
+        partial = names & {'tm_yday', 'tm_mday', 'tm_wday', 'tm_mon', 'day', 'month', 'weekday', 'isoweekday', 'hour'}
+        whole = names & {'year', 'tm_year', 'toordinal', 'date', 'timestamp', 'isoformat', '_ResourceUsage__get_key', 'isocalendar'}
+        if day_idx and partial and not whole:
+            o.refute(qf, r, day_idx[0], f"the ledger answers `{src(v)[:80]}` from an index keyed by `{src(day_idx[0])[:60]}`, which is only a part of "
+                                        f"the date ({', '.join(sorted(partial))}): bookings of different calendar days share one entry, so free days "
+                                        f"look booked (the ledger key is midnight({qp[2]}))")
+        elif isinstance(v, ast.Constant):
+            pc = facts.node_conditions(prog, qf, r, ctx.typer)
+            def _falsy(t, pol):
+                while isinstance(t, ast.UnaryOp) and isinstance(t.op, ast.Not):
+                    t, pol = t.operand, not pol
+                return (t, not pol) if isinstance(t, (ast.IfExp, ast.Attribute, ast.GeneratorExp, ast.ListComp)) else None
+            emp = [sched.is_emptiness(t, pol) or _falsy(t, pol) for t, pol in pc]
+            if v.value == 0 and any(e and e[1] and any(isinstance(x, ast.Attribute) and x.attr == 'rows' for x in ast.walk(e[0])) for e in emp):
+                continue        # `if not self.rows: return 0` / `if not units: return 0` with units collected from the rows
+            o.undecided(qf, r, r, f"the ledger query returns the constant `{src(v)}` on some path")
+        else:
+            o.undecided(qf, r, r, f"the ledger query returns `{src(v)[:80]}`, which is not computed from the booked rows")
     if not sites:
         o.undecided(qf, qf.node, 'reserved', "no iteration over the ledger rows found")
     for c in sites:
@@ -442,6 +666,18 @@ def ledger_shape(ctx, o):
             o.refute(qf, c.node, c.node, "ledger sum does not filter by day")
         else:
             o.site(qf, c.node, "filters: resource, midnight(day)" + (", " + extra[0] if extra else ''))
+
+
+def _origin_nodes(f, sub):
+    """cfg nodes of all original expressions of f that are structurally equal to the (expanded) sub-expression"""
+    fl = flow_of(f)
+    out = []
+    for n in walk_no_nested(f.node):
+        if type(n) is type(sub) and same(n, sub):
+            cn = fl.node_of_expr(n)
+            if cn is not None and cn not in out:
+                out.append(cn)
+    return out
 
 
 def _origin_node(f, amount_expr, sub, ex):
